@@ -315,7 +315,8 @@ def envelope_unit(a, n, p, hs, w, diff_forming, amp):
 
     T_p(r) = n! (sum_{k >= n+p} |c_k| r^(k-n) + Cauchy tail)          truncation of an order-p rule
     R(h)   = eps n! max(max_g M_g(w h), sens_0) / h^n                 rounding of a difference of values
-           = eps max(n! max_g sum_{k >= n} |c_k(g)| (w h)^(k-n), sens_n)   cancellation-free rules
+           = eps max(n! max_g sum_{k >= n} |c_k(g)| (w h)^(k-n), sens_n, n! max_g M_g(rho/2)/(rho/2)^n)
+                                                                       cancellation-free rules
              (sens_k = sum over intermediates g of |d f^(k) / d log g|: conditioning of the evaluation)
     amp    = sum |rule weights| (conditioning of the rule).  Returns (U, T_best, R_best) or None."""
     hs = np.asarray(sorted(set(float(h) for h in hs if h > 0)))
@@ -335,7 +336,11 @@ def envelope_unit(a, n, p, hs, w, diff_forming, amp):
             lv = np.logaddexp(np.max(a.log_bound(0, radii), axis=0), ls0)
             lr = lv + math.lgamma(n + 1) - n * np.log(hs) + math.log(EPS)
         else:
-            lr = np.logaddexp(np.max(a.log_bound(n, radii, kmin=n), axis=0), lsn) + math.log(EPS)
+            # + the Cauchy estimate n! sup|g| / r^n on the certified disc (r = rho/2): operations
+            # such as a Bicomplex division have internal steps (1/u) that the tree does not show
+            lc = float(np.max(a.log_bound(n, [a.rho_cert / 2.0])))
+            lr = np.logaddexp(np.logaddexp(np.max(a.log_bound(n, radii, kmin=n), axis=0), lsn), lc) \
+                + math.log(EPS)
         tot = np.logaddexp(lt, lr)
     j = int(np.argmin(tot))
     if not np.isfinite(tot[j]) or tot[j] > 700:
